@@ -4,6 +4,8 @@ import Blue.Proofs.FlushCrash
 import Blue.Proofs.StoreCrash
 import Blue.Proofs.StoreFault
 import Blue.Proofs.StoreGc
+import Blue.Proofs.StoreHist
+import Blue.Proofs.StoreRollover
 import Blue.Proofs.FsyncCore
 /-! # Property C02 — acknowledged writes survive any crash; recovery is all-or-nothing per batch
 
@@ -17,13 +19,30 @@ The correspondence check derives the same operation list from an `strace` of the
 compares it with `opsOf` (canonicalisation rules spelled out in `harness/src/c02.rs`), and reopens
 the real crash image of every prefix with the real code.
 
-`crash_recover` is at batch granularity with whole system calls; a torn log tail is
-`truncated_log_prefix` (C12), a torn manifest `torn_manifest` (C13).  Assumption shared with the
+`crash_recover` is at batch granularity with whole system calls: a batch is an ATOM of the model
+(its sequence number), so "an in-flight write is there completely or not at all" holds by
+construction here — the byte level is C12 (`truncated_log_prefix`, `cut_delivers_exactly`,
+`crash_torn_prefix`) and C13 (`torn_manifest`).  The history alphabet: `put`, `flush`, clean
+`reopen`, and `compact p outs` — a MERGE compaction whose outputs hold exactly the inputs' batches
+under names that are not names of files of the tree (`validCompact`; any other request is a no-op
+of the model, and an output byte-identical to an existing file — names are content setsums — is
+excluded: that case is C08 `Blue.FileLink`); blocks are sequential (no put overlaps a flush or a
+compaction block); external ingest and the manifest's own rollover are not operations.  SST names
+are taken to be injective in the content (a name IS its content list).  Assumption shared with the
 run-time images: directory operations are durable at once and in program order (the code never
 fsyncs a directory).
 
 `Blue.StoreFault` continues past the first crash.  `image b fs` is the directory a new process
-finds (persistence model a / b), `recoverOps` what `KeyValueStore::open` does to ANY such directory
+finds (persistence model a / b).  ASSUMPTION built into `image false` / `settle false`: bytes that
+survive a process crash (or a surfaced fault) count as DURABLE from then on.  For the manifest this
+is what the rollover of every `Manifest::open` achieves (`rollover_settles_manifest`; without it
+an acknowledged batch can be lost: example below); for a log's unsynced tail nothing in the code
+achieves it (`recover_one` never syncs the log) and without it the batch-list bookkeeping of `Ok`
+fails (example below: a batch in two files) — the epoch theorems are relative to it.
+`epochs_ok_rollover` is the variant with the rollover as an operation at the head of every
+incarnation and the manifest transactions of a process crash left PENDING: it needs the file half
+of the assumption only.
+`recoverOps` is what `KeyValueStore::open` does to ANY such directory
 (`recover_one` per log in ascending order — build and sync the SST, link it unless a file of that
 content is there, add it to the manifest unless listed, remove the temporary, move the log to the
 trash —, `cleanup_orphans`, `start_new_log`); an `Epoch` is one incarnation of the store (open,
@@ -54,6 +73,15 @@ theorem crash_recover (h : List Client) (n : Nat) :
     Ok (recoverB (run fs0 ((opsOf h kv0).take n))) (acked ((opsOf h kv0).take n)) (appended ((opsOf h kv0).take n))
     ∧ Ok (recoverA (run fs0 ((opsOf h kv0).take n))) (acked ((opsOf h kv0).take n)) (appended ((opsOf h kv0).take n)) :=
   crash_recover_init h n
+
+/-- **every acknowledged batch is recovered**: `Ok` bounds the NUMBER of recovered batches by the
+    number of acknowledgements; the acknowledgements of a history are `ack 0, ack 1, …` in this
+    order (`ack_lt`), so the batch of every acknowledgement issued before the crash point is among
+    the recovered ones, under both models -/
+theorem ack_mem (h : List Client) (n b : Nat) (hack : Op.ack b ∈ (opsOf h kv0).take n) :
+    (∃ l, recoverB (run fs0 ((opsOf h kv0).take n)) = some l ∧ b ∈ l)
+    ∧ (∃ l, recoverA (run fs0 ((opsOf h kv0).take n)) = some l ∧ b ∈ l) :=
+  Blue.StoreCrash.ack_mem h n b hack
 
 /-- what `Ok` says -/
 theorem ok_means (r : Option (List Nat)) (lo hi : Nat) :
@@ -88,8 +116,12 @@ example :
 section Fault
 open Blue.StoreFault
 
-/-- **a failed system call is surfaced, never acknowledged, and leaves a store that reopens with
-    every acknowledged write**: whatever history, whichever of its system calls fails (`op`, call
+/-- **the directory a failed system call leaves reopens with every acknowledged write**.  Conjuncts
+    1 and 2 are MODEL FACTS (definitions unfolded: `surfaced` is `!absorbed op`, `faultAcked` counts
+    the acknowledgements before the failed call — that the real store surfaces the error and
+    acknowledges nothing more is what the check compares, `crash fault`); the content is conjuncts
+    3 and 4: in the fault model (a non-absorbed failed call ends the operation list there, with or
+    without its own effect) the directory reopens under (b) and (a).  Whatever history, whichever of its system calls fails (`op`, call
     number `i`; every call except the renames into trash/ the code ignores the result of), whether
     or not the failed call took effect nevertheless: the client gets the error, it holds exactly the
     acknowledgements issued before the failed call, and the directory reopens — after the process
@@ -128,8 +160,10 @@ theorem absorbed_fault_run (h : List Client) (skip : Option Nat) (n : Nat) :
 theorem absorbed_fault_is_skip {ops : List Op} {i : Nat} {x : Name} (h : ops[i]? = some (Op.sstTrash x)) :
     Skips (faultOps ops i false) ops := skips_fault h
 
-/-- **recovery is crash safe** (a second crash during recovery): for a directory `fs` as a new
-    process finds it (`Img fs k`: whole SSTs, nothing pending, reopening to the batches `0 … k-1`),
+/-- **recovery is crash safe** (a second crash during recovery): for any directory `fs` of the
+    CLASS `Img fs k` (whole synced SSTs, no manifest transaction pending, logs synced, model (a)
+    reopen succeeds with the batches `0 … k-1`; every crash image of every history is of the class:
+    `crash_image_is_img` — with `image false` counting surviving bytes as durable, see the header),
     every prefix of what `KeyValueStore::open` does to it leaves a directory that reopens, under
     both persistence models, to exactly what `fs` reopens to; the whole of it establishes the
     block-boundary invariant from which `crash_recover` starts, with next sequence number `k` -/
@@ -154,7 +188,9 @@ theorem crash_image_is_img (h : List Client) (n : Nat) (b : Bool) :
     inside its recovery too — by a crash under either persistence model, or by a failed call
     (`fault_epoch`: the same directory).  The last directory is again of the class `Img` and
     reopens to a permutation of `0 … k'-1` with `k'` between all the acknowledgements the client
-    ever got and all the appends. -/
+    ever got and all the appends.  (Weaker across incarnations than `crash_recover` within one: a
+    batch in flight that a crash loses frees its sequence number, the next incarnation reuses it —
+    "`0 … k'-1`" identifies batches by number only.  Relative to the `image false` assumption.) -/
 theorem epochs_ok (es : List Epoch) (fs : Fs) (k : Nat) (h : Img fs k) :
     ∃ k', Img (runEpochs fs es) k' ∧ k + ackedEpochs fs es ≤ k' ∧ k' ≤ k + appendedEpochs fs es :=
   Blue.StoreFault.epochs_ok es fs k h
@@ -207,6 +243,17 @@ example :
     recoverB (run fs0 (pre ++ (compactOps [[0, 1], [2]] [[1, 2]]).take 5)) = some [0, 1, 2]
     ∧ recoverB (run fs0 (pre ++ (compactOps [[0, 1], [2]] [[1, 2]]).take 6)) = some [1, 2] := by decide
 
+/-- … and the hypotheses of `gc_compaction_atomic` are discharged on that store: `Inv` after the
+    history (`inv_hist`), inputs in the tree, the output a new name -/
+theorem inv_hist (h : List Client) : Inv (run fs0 (opsOf h kv0)) (kvOf h kv0) :=
+  Blue.StoreCrash.inv_hist h fs0 kv0 inv0
+
+example (n : Nat) :=
+  gc_compaction_atomic (inv_hist [.put, .put, .flush, .put, .flush]) [[0, 1], [2]] [[1, 2]]
+    (by decide) (by decide) (by decide) n
+example : (kvOf [.put, .put, .flush, .put, .flush] kv0).files = [[0, 1], [2]]
+    ∧ (kvOf [.put, .put, .flush, .put, .flush] kv0).content = [] := by decide
+
 /-- mutant at model level: moving the outputs of a compaction to the trash after its manifest
     transaction was written but the sync reported an error (what /repo dc44e03 did on its error
     path until it was corrected) leaves a manifest that lists a file which is gone: the store does
@@ -250,12 +297,105 @@ example :
     ops[28]? = some (Op.sstTrash [0]) ∧ surfaced ops 28 = false
     ∧ recoverB (run fs0 (faultOps ops 28 false)) = some [1, 0, 2] := by decide
 
+/-! ### the assumption inside `image false`, and the open-time rollover -/
+
+/-- the manifest half of `image false` is what the rollover of `Manifest::open` does: on the
+    directory a process crash leaves (files as `settle false` has them, manifest transactions
+    still pending) one `maniSync` — the rename of the rolled-over manifest, before anything else
+    `open` does — gives the directory `image false` postulates; after a power loss it is a no-op -/
+theorem rollover_settles_manifest (fs : Fs) :
+    step (settleFiles false fs) .maniSync = image false fs
+    ∧ step (image true fs) .maniSync = image true fs :=
+  ⟨Blue.StoreFault.rollover_settles_manifest fs, rollover_noop_after_power_loss fs⟩
+
+/-- **incarnations with the rollover in the operation list, without the manifest half of the
+    assumption** (`Blue/Proofs/StoreRollover.lean`): a process crash leaves the unsynced manifest
+    transactions PENDING (`imageR false`: only the file half is kept — a log's unsynced bytes count
+    as on disk); a power loss loses everything unsynced (`imageR true = image true`, no
+    assumption); every incarnation starts with the rollover of `Manifest::open` (`maniSync`), then
+    does what `open` does to the directory it finds then, then any history, and is cut anywhere —
+    before the rollover's rename too — by a process crash, a power loss or a surfaced fault
+    (`fault_epoch_rollover`).  After the rollover of the next open the last directory is of the
+    class `Img`, reopening to a permutation of `0 … k'-1` with `k'` between all acknowledgements
+    and all appends.  Hypothesis `e.n = 0 → e.b = false`: a power loss before the incarnation has
+    done anything is the power loss of the preceding cut. -/
+theorem epochs_ok_rollover (es : List Epoch) (fs : Fs) (k : Nat) (h : PreImg fs k)
+    (hz : ∀ e ∈ es, e.n = 0 → e.b = false) :
+    ∃ k', PreImg (runEpochsR fs es) k' ∧ k + ackedEpochsR fs es ≤ k' ∧ k' ≤ k + appendedEpochsR fs es :=
+  Blue.StoreFault.epochs_ok_rollover es fs k h hz
+
+/-- what `PreImg … k` gives, and the empty store has it -/
+theorem preImg_means {fs : Fs} {k : Nat} (h : PreImg fs k) :
+    (∃ lA, recoverA fs = some lA ∧ lA.Perm (List.range k))
+    ∧ ∃ lB, recoverB (step fs .maniSync) = some lB ∧ lB.Perm (List.range k) :=
+  Blue.StoreFault.preImg_means h
+
+theorem preImg_empty : PreImg fs0 0 := preImg0
+
+theorem fault_epoch_rollover (fs : Fs) (hist : List Client) (i : Nat) (e b : Bool) (op : Op)
+    (hi : (Op.maniSync :: (recoverOps (step fs .maniSync) ++ opsOf hist (kvAfter (step fs .maniSync))))[i]? = some op)
+    (hs : absorbed op = false) :
+    faultOps (Op.maniSync :: (recoverOps (step fs .maniSync) ++ opsOf hist (kvAfter (step fs .maniSync)))) i e
+      = epochOpsR fs ⟨hist, if e then i + 1 else i, b⟩ :=
+  Blue.StoreFault.fault_epoch_rollover fs hist i e b op hi hs
+
+/-- non-vacuity of `epochs_ok_rollover`, on the scenario that breaks without the rollover: a flush
+    is cut by a PROCESS crash right after its manifest append (the transaction stays pending:
+    `maniPending` has one entry in the image); the second incarnation is cut by a power loss after
+    its rollover and three calls of its recovery; the third finds both acknowledged batches -/
+example :
+    let e1 : Epoch := ⟨[.put, .put, .flush], 1 + 2 + 6 + 5, false⟩
+    let e2 : Epoch := ⟨[], 4, true⟩
+    (runEpochsR fs0 [e1]).maniPending.length = 1 ∧ (runEpochsR fs0 [e1]).maniDurable = []
+    ∧ recoverB (runEpochsR fs0 [e1, e2]) = some [0, 1]
+    ∧ ackedEpochsR fs0 [e1, e2] = 2 := by decide
+
+/-- WITHOUT the rollover the manifest half of the assumption is false in the code's protocol: a
+    flush is cut by a process crash right after its manifest append (unsynced, in the page cache);
+    the next incarnation sees the transaction, trashes the log, and a power loss then leaves a
+    manifest without the file — the acknowledged batch 0 is gone.  With the rollover (`maniSync`
+    first) it is there.  (`recoverOps` run on the directory AS IS, no `image`.) -/
+example :
+    let ops := (opsOf [.put, .flush] kv0).take 8
+    let fs := run fs0 ops
+    acked ops = 1
+    ∧ recoverB (run fs (recoverOps fs)) = some []
+    ∧ recoverB (run fs (.maniSync :: recoverOps fs)) = some [0] := by decide
+
+/-- the same for a compaction cut after its manifest append: without the rollover the next
+    incarnation trashes the inputs and a power loss leaves a manifest that names them — the store
+    does not reopen; with the rollover it does -/
+example :
+    let h : List Client := [.put, .flush, .put, .flush, .compact (fun _ => true) [[1, 0]]]
+    let fs := run fs0 ((opsOf h kv0).take 27)
+    recoverB (run fs (recoverOps fs)) = none
+    ∧ recoverB (run fs (.maniSync :: recoverOps fs)) = some [1, 0] := by decide
+
+/-- the LOG half of the assumption has no such justification, and the batch-list bookkeeping needs
+    it: batch 0 acknowledged, batch 1 appended and not synced, process crash; the next incarnation
+    (rollover, then `recover_one` on the log it reads through the page cache: SST `{0,1}`, manifest
+    synced) is cut by a power loss before the log goes to the trash.  With the unsynced tail NOT
+    counted as durable the directory holds the SST `{0,1}` and the log `[0]`: batch 0 twice — not a
+    permutation of `0 … k-1` (every acknowledged batch is there; a further reopen would write an
+    SST `{0}` next to `{0,1}`).  With `image false` (tail durable) every prefix reopens to `[0, 1]`. -/
+example :
+    let fs := run fs0 ((opsOf [.put, .put] kv0).take 4)
+    recoverB (run fs ((Op.maniSync :: recoverOps fs).take 6)) = some [0, 1, 0]
+    ∧ recoverB (run (image false fs) ((recoverOps (image false fs)).take 5)) = some [0, 1] := by decide
+
 end Fault
 
 end Blue.Props.C02
 
 #print axioms Blue.Props.C02.crash_recover
 #print axioms Blue.Props.C02.ok_means
+#print axioms Blue.Props.C02.ack_mem
+#print axioms Blue.Props.C02.inv_hist
+#print axioms Blue.Props.C02.rollover_settles_manifest
+#print axioms Blue.Props.C02.epochs_ok_rollover
+#print axioms Blue.Props.C02.preImg_means
+#print axioms Blue.Props.C02.preImg_empty
+#print axioms Blue.Props.C02.fault_epoch_rollover
 #print axioms Blue.Props.C02.frame_ops_invisible
 #print axioms Blue.Props.C02.mutants
 #print axioms Blue.Props.C02.fault_surfaces
